@@ -96,6 +96,8 @@ func main() {
 			perCommandScenario(seed, workers, iters, &r, fail)
 		case "cache-route":
 			routeScenario(seed, workers, iters, &r, fail)
+		case "secret-duplex":
+			secretDuplexScenario(seed, workers, iters, &r, fail)
 		case "fresh-key-duplex":
 			freshKeyDuplexScenario(seed, workers, iters, &r, fail)
 		case "stream-duplex":
@@ -758,6 +760,102 @@ func routeScenario(seed int64, workers, iters int, r *result, fail func(string, 
 	atomic.StoreInt32(&stop, 1)
 	swg.Wait()
 	r.Ops = n
+}
+
+// ---- full duplex with private attributes in the legacy wire form ----------------
+//
+// An established AES stream used by a writer and a reader goroutine at once, where the
+// ads arriving carry a private attribute as SECRET_MARKER ("ZKM") + put_secret field -
+// what a C++ peer that was not told a modern version sends even under AES-GCM. Reading
+// it goes through the crypto-for-secret toggle, which on an already encrypted channel
+// must be a no-op that does not touch state the send path reads.
+func secretDuplexScenario(seed int64, workers, iters int, r *result, fail func(string, ...interface{})) {
+	key := bytes.Repeat([]byte{0x33}, 32)
+	ctx := context.Background()
+	var wg sync.WaitGroup
+	var mu sync.Mutex
+	total := 0
+	putLegacyAd := func(st *stream.Stream, i int) error {
+		m := message.NewMessageForStream(st)
+		if err := m.PutInt(ctx, 2); err != nil { // two expressions; marker + secret count as one
+			return err
+		}
+		if err := m.PutString(ctx, fmt.Sprintf("Seq = %d", i)); err != nil {
+			return err
+		}
+		if err := m.PutString(ctx, message.SecretMarker); err != nil {
+			return err
+		}
+		if err := m.PutString(ctx, fmt.Sprintf("ClaimId = \"secret-%d\"", i)); err != nil {
+			return err
+		}
+		if err := m.PutString(ctx, ""); err != nil {
+			return err
+		}
+		if err := m.PutString(ctx, ""); err != nil {
+			return err
+		}
+		return m.FinishMessage(ctx)
+	}
+	for w := 0; w < workers; w++ {
+		wg.Add(1)
+		go func(w int) {
+			defer wg.Done()
+			a, b := net.Pipe()
+			defer a.Close()
+			defer b.Close()
+			sa, sb := stream.NewStream(a), stream.NewStream(b)
+			if err := sa.SetSymmetricKey(key); err != nil {
+				fail("key: %v", err)
+				return
+			}
+			if err := sb.SetSymmetricKey(key); err != nil {
+				fail("key: %v", err)
+				return
+			}
+			var g sync.WaitGroup
+			send := func(st *stream.Stream) {
+				defer g.Done()
+				for i := 0; i < iters; i++ {
+					if err := putLegacyAd(st, i); err != nil {
+						fail("send %d: %v", i, err)
+						return
+					}
+					tick()
+				}
+			}
+			recv := func(st *stream.Stream) {
+				defer g.Done()
+				for i := 0; i < iters; i++ {
+					m := message.NewMessageFromStream(st)
+					ad, err := m.GetClassAd(ctx)
+					if err != nil {
+						fail("recv %d: %v", i, err)
+						return
+					}
+					if v, ok := ad.EvaluateAttrString("ClaimId"); !ok || v != fmt.Sprintf("secret-%d", i) {
+						fail("recv %d: private attribute lost or wrong (%q)", i, v)
+						return
+					}
+					if !st.IsEncrypted() {
+						fail("recv %d: the stream's encryption was switched off", i)
+						return
+					}
+				}
+			}
+			g.Add(4)
+			go send(sa)
+			go recv(sb)
+			go send(sb)
+			go recv(sa)
+			g.Wait()
+			mu.Lock()
+			total += 2 * iters
+			mu.Unlock()
+		}(w)
+	}
+	wg.Wait()
+	r.Ops = total
 }
 
 // ---- first send and first receive overlapping on a freshly keyed stream ----------
